@@ -10,7 +10,11 @@ import logging
 from common import hx
 import rxworld
 
-logging.disable(logging.CRITICAL)
+# The library's log calls are left enabled down to DEBUG - as in a default installation - so that whatever hangs on
+# them (filters, eager formatting) runs; the records go to a handler that discards them.
+logging.getLogger().addHandler(logging.NullHandler())
+logging.getLogger().setLevel(logging.DEBUG)
+logging.getLogger("asyncio").setLevel(logging.WARNING)
 
 
 class VLoop(asyncio.SelectorEventLoop):
